@@ -137,6 +137,29 @@ theorem place_no_overlap (cfg : Cfg) (shapes : List ItemShape) :
       intro q hq c hc hcq
       exact Nat.le_trans (placeStep_region_ge cfg a s n c hc) (placedAux_ge cfg _ rest q hq c hcq)
 
+/-- **The shape covers every cell the region's calls touch**: each call that assigns a cell or
+enables a selector at `(column, offset)` has its column in the shape and its offset below the
+shape's row count. (This is what makes the placement sound; it holds when the assignment pass
+makes the calls the shape pass saw - the harness checks that on the real code.) -/
+theorem shape_covers_calls (evs : List Ev) (e : Ev) (he : e ∈ evs) (c : Col) (off : Nat)
+    (ht : e.touch = some (c, off)) :
+    c ∈ (shapeOf evs).cols ∧ off < (shapeOf evs).rows := by
+  have hm : (c, off) ∈ evs.filterMap Ev.touch := List.mem_filterMap.mpr ⟨e, he, ht⟩
+  exact foldl_add_covers _ _ (c, off) hm
+
+example : (⟨0, 2⟩ : Col) ∈ (shapeOf [.sel 1 0, .adv 2 3 none]).cols ∧ 3 < (shapeOf [.sel 1 0, .adv 2 3 none]).rows :=
+  shape_covers_calls _ (.adv 2 3 none) (by decide) _ _ rfl
+
+/-- **Placed regions occupy disjoint cells**: no row of a column lies in the rectangles of two
+different regions. -/
+theorem placed_rectangles_disjoint (cfg : Cfg) (shapes : List ItemShape) :
+    (placed cfg shapes).Pairwise (fun p q => ∀ (c : Col) (r : Nat),
+      ¬ (c ∈ p.1.cols ∧ p.2 ≤ r ∧ r < p.2 + p.1.rows ∧ c ∈ q.1.cols ∧ q.2 ≤ r ∧ r < q.2 + q.1.rows)) := by
+  refine List.Pairwise.imp ?_ (place_no_overlap cfg shapes)
+  intro p q h c r ⟨hp, _, h2, hq, h3, _⟩
+  have := h c hp hq
+  omega
+
 /-- `placed` lists exactly the starts of `placeAll`. -/
 theorem placed_starts (cfg : Cfg) (shapes : List ItemShape) :
     (placed cfg shapes).map (·.2) = placeAll cfg shapes :=
